@@ -23,7 +23,7 @@ CLAIMS = {
     "C09": ("macx", "history enumeration over 72 Result functions (both spellings, three flavours) with every Ok/Err outcome script: Err never stored / served / evicting, first Ok stored and reused", "§7 C09"),
     "C10": ("macx", "history enumeration over 24 cache_if functions with every accept/reject script: consulted once per execution with that call's key and result, verdict decides storage", "§7 C10"),
     "C11": ("macx", "history enumeration over 24 invalidate_on functions with versioned bodies and every verdict script: stale entries never served, refreshed value replaces the stale one and is served next", "§7 C11"),
-    "C12": ("macx", "history enumeration over groups covering all 128 metadata assignments (tags/events/dependencies subsets of {x,y}, sync and async): every by_tag/by_event/by_dependency/invalidate_cache request incl. undeclared names; count and emptied caches compared with the metadata", "§7 C12"),
+    "C12": ("macx+thrx", "history enumeration over groups covering all 128 metadata assignments (tags/events/dependencies subsets of {x,y}, sync and async): every by_tag/by_event/by_dependency/invalidate_cache request incl. undeclared names; count and emptied caches compared with the metadata; plus every schedule (preemption bound 2/3) of two or three group invalidations racing with each other and with calls: counts stay exact", "§7 C12"),
     "C13": ("macx", "history enumeration with invalidate_with / invalidate_all_with for key subsets: exactly the matching keys go, bystanders untouched, and the C04-type monitors keep running after the invalidation", "§7 C13"),
     "C14": ("thrx", "every interleaving (operation-boundary granularity, no effective preemption bound) of 2-4 real OS threads calling thread-scope functions of every policy / limit, compared with each thread's program run alone on a fresh thread; "
                     "any dependence of a schedule on earlier executions (fresh threads each time) is reported as state outliving its thread; plus global/async drivers: what one thread stored every other thread is served", "§7 C14"),
